@@ -31,6 +31,17 @@ func schedCase(rng *rand.Rand, w *Writer, suite string, kind string, canonical i
 		d.otaa = true
 		d.nwk, d.app = make([]byte, 16), make([]byte, 16)
 		state = model.OverTheAirDevice
+	} else if kind == "rejoin" {
+		// an OTAA device in an established session; it joins again while a frame of the old session is still on its way
+		d.otaa = true
+		state = model.OverTheAirDevice
+		d.nwk, d.app = randBytes(rng, 16), randBytes(rng, 16)
+		d.addr = rng.Uint32() & 0x01ffffff
+		d.joined = true
+		d.fup0 = []uint16{1, 100, 40000}[rng.Intn(3)]
+		d.fdn0 = []uint16{1, 7, 30000}[rng.Intn(3)]
+		d.relaxed = rng.Intn(3) == 0
+		d.fcnt = d.fup0
 	} else {
 		d.nwk, d.app = randBytes(rng, 16), randBytes(rng, 16)
 		d.addr = rng.Uint32()
@@ -73,6 +84,11 @@ func schedCase(rng *rand.Rand, w *Writer, suite string, kind string, canonical i
 	case "regressed":
 		f1 = h.validUplink(d, true, false, d.fcnt, 1+rng.Intn(200), randBytes(rng, rng.Intn(20)), nil)
 		f2 = h.validUplink(d, true, false, uint16(rng.Intn(int(d.fup0))), 1+rng.Intn(200), randBytes(rng, rng.Intn(20)), nil)
+	case "rejoin":
+		nonce := uint16(rng.Intn(65536))
+		d.lastNonce = nonce
+		f1 = refJoinRequest(d.appkey, d.appeui, d.eui, nonce)
+		f2 = h.validUplink(d, rng.Intn(2) == 0, false, d.fcnt, 1+rng.Intn(200), randBytes(rng, rng.Intn(20)), nil)
 	case "join-copies":
 		nonce := uint16(rng.Intn(65536))
 		d.lastNonce = nonce
@@ -128,7 +144,7 @@ func schedCase(rng *rand.Rand, w *Writer, suite string, kind string, canonical i
 				newaddr = binary.LittleEndian.Uint32(dec[6:10])
 			}
 		}
-		if kind == "join-copies" && appnonce == "" {
+		if (kind == "join-copies" || kind == "rejoin") && appnonce == "" {
 			appnonce, newaddr = h.recoverAppNonce(d)
 		}
 		sort.Strings(dl)
@@ -148,6 +164,10 @@ func schedCase(rng *rand.Rand, w *Writer, suite string, kind string, canonical i
 	switch canonical {
 	case 1, 3: // both handlers read the device before either writes; then the first runs on, then the second
 		sched = []bool{false, true}
+		if kind == "rejoin" {
+			// the uplink's handler reads the device, the join runs to its end, the uplink's handler goes on
+			sched = []bool{true}
+		}
 	case 2: // second frame first, alternating through the counter writes; the second frame then runs on and the first finishes last
 		sched = []bool{true, false, true, false}
 		for i := 0; i < 26; i++ {
@@ -174,7 +194,7 @@ func schedCase(rng *rand.Rand, w *Writer, suite string, kind string, canonical i
 			newaddr = binary.LittleEndian.Uint32(dec[6:10])
 		}
 	}
-	if kind == "join-copies" && appnonce == "" {
+	if (kind == "join-copies" || kind == "rejoin") && appnonce == "" {
 		appnonce, newaddr = h.recoverAppNonce(d)
 	}
 	sort.Strings(dl)
